@@ -13,7 +13,7 @@ import (
 
 func zzReceiptTx(index uint64, typ pb.IBTP_Type, nonce uint64, hashN int) *pb.BxhTransaction {
 	return &pb.BxhTransaction{From: zzAddr(zzUsers[1]), To: constant.InterchainContractAddr.Address(), Nonce: nonce, TransactionHash: zzHash(hashN), Timestamp: 1,
-		IBTP: &pb.IBTP{From: "1356:chA:sA", To: "1356:chB:sB", Index: index, Type: typ}}
+		IBTP: &pb.IBTP{From: zzSrcFullID(), To: "1356:chB:sB", Index: index, Type: typ}}
 }
 
 func zzStatusOf(exec *BlockExecutor, id string) (pb.TransactionStatus, bool) {
@@ -43,7 +43,19 @@ func zzTimedOut(im *pb.InterchainMeta, chain, id string) int {
 // itself counts; an accepted final status is never altered afterwards; after the timeout only a
 // rollback or failure receipt is accepted.
 // zz:also C04 C07
-func ZZH_C06_pipeline() {
+func ZZH_C06_pipeline() { zzTimeoutPipeline() }
+
+// ZZH_C06_odd_ids: the same lifecycle for a source service whose id contains the characters the
+// transaction id and the timeout list use as separators (service ids are not restricted at
+// registration): a dash, a comma.
+// zz:also C08
+func ZZH_C06_odd_ids() {
+	zzSrcSvc = []string{"s-A", "s,A"}[zz.Choice("sourceServiceId", 2)]
+	zz.Tag("C06.F-comma-in-id", zzSrcSvc == "s,A")
+	zzTimeoutPipeline()
+}
+
+func zzTimeoutPipeline() {
 	exec := zzNewExec(1, big.NewInt(0))
 	exec.ibtpVerify = &zzStubVerify{verdict: make([]uint8, 8), seen: make([]int, 8)}
 	exec.config.ProofType = "serial"
@@ -52,7 +64,7 @@ func ZZH_C06_pipeline() {
 	req := zzRequestTx(1, 0, 0)
 	req.IBTP.TimeoutHeight = T
 	exec.processExecuteEvent(zzBlockOf(1, []pb.Transaction{req}))
-	id := "1356:chA:sA-1356:chB:sB-1"
+	id := zzSrcFullID() + "-1356:chB:sB-1"
 	st, ok := zzStatusOf(exec, id)
 	zz.Assert("C06.pipe.request-accepted", ok && st == pb.TransactionStatus_BEGIN)
 	expiry := uint64(1 + T)
